@@ -109,7 +109,11 @@ func (w *Writer) Flush() (err error) {
 	if w.w != nil {
 		return w.w.Flush()
 	}
-	return w.lc.Flush()
+	err = w.lc.Flush()
+	if err != nil {
+		w.err = err
+	}
+	return err
 }
 
 func (w *Writer) Close() (err error) {
@@ -125,6 +129,8 @@ func (w *Writer) Close() (err error) {
 	err = w.lc.Close()
 	if err == nil {
 		w.err = errWriterClosed
+	} else {
+		w.err = err
 	}
 	return err
 }
